@@ -213,6 +213,39 @@ func cmdCheck(id, tier string) int {
 		}
 	}
 
+	// translator validation: solved witnesses of clean paths are replayed natively; the
+	// native run of the same harness on the solver's inputs must pass every assertion too
+	validated, mismatches := 0, 0
+	if os.Getenv("VERIF_NOREPLAY") == "" {
+		for _, res := range results {
+			if res.Cfg.NoReplay || len(res.Violations) > 0 {
+				continue
+			}
+			limit := 1
+			if tier == "thorough" {
+				limit = 3
+			}
+			for i, smp := range res.Samples {
+				if i >= limit {
+					break
+				}
+				rf := ReplayFile{Property: id, Harness: res.Cfg.Name, Pkg: res.Cfg.Pkg, Func: res.Cfg.Func, Assert: "", Kind: "witness", Model: smp, Params: res.Cfg.Params}
+				_, out, err := nativeReplay(ld, &rf)
+				switch {
+				case err != nil:
+					inconclusive = append(inconclusive, fmt.Sprintf("%s: witness replay could not run: %v", res.Cfg.Name, err))
+				case strings.Contains(out, "VERIF-ASSUME-VIOLATED"):
+					// inputs declared after the last solved point defaulted to zero and broke an assumption: not a validation
+				case strings.Contains(out, "VERIF-ASSERT-FAILED") || strings.Contains(out, "VERIF-PANIC") || strings.Contains(out, "panic:") || strings.Contains(out, "VERIF-DEADLOCK"):
+					mismatches++
+					inconclusive = append(inconclusive, fmt.Sprintf("%s: MODEL MISMATCH: the native run on a solved witness fails although the symbolic path passed:\n%s", res.Cfg.Name, tail(out, 12)))
+				case strings.Contains(out, "\nok ") || strings.Contains(out, "PASS"):
+					validated++
+				}
+			}
+		}
+	}
+
 	// violations
 	exit := 0
 	nViol := 0
@@ -286,7 +319,7 @@ func cmdCheck(id, tier string) int {
 	for _, s := range inconclusive {
 		fmt.Printf("INCONCLUSIVE: %s\n", s)
 	}
-	writeEvidence(ld, def, id, tier, seed, results, inconclusive, nViol, replayed, spurious, time.Since(t0))
+	writeEvidence(ld, def, id, tier, seed, results, inconclusive, nViol, replayed+validated, spurious, time.Since(t0))
 	if exit == 0 {
 		fmt.Printf("OK property=%s tier=%s held within bounds (%.1fs)\n", id, tier, time.Since(t0).Seconds())
 	}
